@@ -214,7 +214,7 @@ package node_info
 //@ func (*NodeInfo).addSharedTaskResourcesPerPodGroup
 //@   props C02 C14
 //@   requires nodeWF(ni) && task != nil && task.ResReq != nil
-//@   modifies ni.UsedSharedGPUsMemory[gpuGroup], ni.ReleasingSharedGPUsMemory[gpuGroup], ni.AllocatedSharedGPUsMemory[gpuGroup], ni.ReleasingSharedGPUs[gpuGroup], ni.Idle.gpus, ni.Releasing.gpus, ni.IdleVector[*], ni.ReleasingVector[*]
+//@   modifies ni.UsedSharedGPUsMemory[gpuGroup], ni.ReleasingSharedGPUsMemory[gpuGroup], ni.AllocatedSharedGPUsMemory[gpuGroup], ni.ReleasingSharedGPUs[gpuGroup], ni.Idle.gpus, ni.Releasing.gpus, ni.IdleVector[*], ni.ReleasingVector[*], sumIdleGPUs(ni), sumIdleGPUMem(ni), sumReleasingGPUs(ni), sumReleasingGPUMem(ni)
 //@   ensures [used] ni.UsedSharedGPUsMemory[gpuGroup] == old(ni.UsedSharedGPUsMemory[gpuGroup]) + needMem(ni, task.ResReq) && gpuGroup in ni.UsedSharedGPUsMemory
 //@   ensures [releasing] ni.ReleasingSharedGPUsMemory[gpuGroup] == old(ni.ReleasingSharedGPUsMemory[gpuGroup]) + ite(task.Status == pod_status.Releasing, needMem(ni, task.ResReq), ite(task.Status == pod_status.Pipelined, 0 - needMem(ni, task.ResReq), 0))
 //@   ensures [allocated] ni.AllocatedSharedGPUsMemory[gpuGroup] == old(ni.AllocatedSharedGPUsMemory[gpuGroup]) + ite(task.Status == pod_status.Pipelined, 0, needMem(ni, task.ResReq))
@@ -230,7 +230,7 @@ package node_info
 //@ func (*NodeInfo).removeSharedTaskResourcesPerPodGroup
 //@   props C02 C14
 //@   requires nodeWF(ni) && task != nil && task.ResReq != nil
-//@   modifies ni.UsedSharedGPUsMemory[gpuGroup], ni.ReleasingSharedGPUsMemory[gpuGroup], ni.AllocatedSharedGPUsMemory[gpuGroup], ni.ReleasingSharedGPUs[gpuGroup], ni.Idle.gpus, ni.Releasing.gpus, ni.IdleVector[*], ni.ReleasingVector[*]
+//@   modifies ni.UsedSharedGPUsMemory[gpuGroup], ni.ReleasingSharedGPUsMemory[gpuGroup], ni.AllocatedSharedGPUsMemory[gpuGroup], ni.ReleasingSharedGPUs[gpuGroup], ni.Idle.gpus, ni.Releasing.gpus, ni.IdleVector[*], ni.ReleasingVector[*], sumIdleGPUs(ni), sumIdleGPUMem(ni), sumReleasingGPUs(ni), sumReleasingGPUMem(ni)
 //@   ensures [used] ni.UsedSharedGPUsMemory[gpuGroup] == old(ni.UsedSharedGPUsMemory[gpuGroup]) - needMem(ni, task.ResReq)
 //@   ensures [releasing] ni.ReleasingSharedGPUsMemory[gpuGroup] == old(ni.ReleasingSharedGPUsMemory[gpuGroup]) - ite(task.Status == pod_status.Releasing, needMem(ni, task.ResReq), ite(task.Status == pod_status.Pipelined, 0 - needMem(ni, task.ResReq), 0))
 //@   ensures [allocated] ni.AllocatedSharedGPUsMemory[gpuGroup] == old(ni.AllocatedSharedGPUsMemory[gpuGroup]) - ite(task.Status == pod_status.Pipelined, 0, needMem(ni, task.ResReq))
@@ -251,7 +251,7 @@ package node_info
 //@ func (*NodeInfo).addSharedTaskResources
 //@   props C02 C14
 //@   requires nodeWF(ni) && task != nil && task.ResReq != nil
-//@   modifies ni.UsedSharedGPUsMemory[*], ni.ReleasingSharedGPUsMemory[*], ni.AllocatedSharedGPUsMemory[*], ni.ReleasingSharedGPUs[*], ni.Idle.gpus, ni.Releasing.gpus, ni.IdleVector[*], ni.ReleasingVector[*]
+//@   modifies ni.UsedSharedGPUsMemory[*], ni.ReleasingSharedGPUsMemory[*], ni.AllocatedSharedGPUsMemory[*], ni.ReleasingSharedGPUs[*], ni.Idle.gpus, ni.Releasing.gpus, ni.IdleVector[*], ni.ReleasingVector[*], sumIdleGPUs(ni), sumIdleGPUMem(ni), sumReleasingGPUs(ni), sumReleasingGPUMem(ni)
 //@   loop 1
 //@     invariant 0 - 1 <= rangeindex && rangeindex < len(task.GPUGroups) && nodeWF(ni)
 //@     invariant forall g string :: !inGroups(task, g) ==> ni.UsedSharedGPUsMemory[g] == old(ni.UsedSharedGPUsMemory[g]) && ni.ReleasingSharedGPUsMemory[g] == old(ni.ReleasingSharedGPUsMemory[g]) && ni.AllocatedSharedGPUsMemory[g] == old(ni.AllocatedSharedGPUsMemory[g]) && markedReleasing(ni, g) == old(markedReleasing(ni, g)) && (g in ni.AllocatedSharedGPUsMemory <==> old(g in ni.AllocatedSharedGPUsMemory)) && (g in ni.UsedSharedGPUsMemory <==> old(g in ni.UsedSharedGPUsMemory))
@@ -331,4 +331,30 @@ package node_info
 //@   ensures [gpus] result && (task.ResourceRequestType == "Regular" || task.ResourceRequestType == "MigInstance") ==> ri.reqGpus(task.ResReq.GpuResourceRequirement) + real(task.ResReq.GetDraGpusCount()) <= ni.Idle.gpus + ni.Releasing.gpus
 //@   ensures [mig] result && (task.ResourceRequestType == "Regular" || task.ResourceRequestType == "MigInstance") ==> forall k in task.ResReq.migResources :: sumHas(ni, k) && task.ResReq.migResources[k] <= sumScalar(ni, k)
 //@   ensures [fraction] result && !(task.ResourceRequestType == "Regular" || task.ResourceRequestType == "MigInstance") ==> validPortion(ni, task.ResReq) && (floor(ni.Idle.gpus + ni.Releasing.gpus) >= task.ResReq.count || exists g in ni.UsedSharedGPUsMemory :: fitsGpuGroup(ni, task.ResReq, g))
+//@ end
+
+// ---- GPU capacity summaries (used by C05 node filtering) ---------------------------------------------------
+// Folds over the per-group maps and the MIG scalars (MIG profile-name parsing): no sum theory in the spec language.
+// They are ghost attributes of the node; every NodeInfo mutator under contract lists them in `modifies`.
+//@ ghost sumIdleGPUs(ni *NodeInfo) real
+//@ ghost sumIdleGPUMem(ni *NodeInfo) int
+//@ ghost sumReleasingGPUs(ni *NodeInfo) real
+//@ ghost sumReleasingGPUMem(ni *NodeInfo) int
+
+//@ func (*NodeInfo).GetSumOfIdleGPUs
+//@   props C05 C02
+//@   trusted
+//@   note assumed: idle GPUs = free part of shared groups + whole idle GPUs + MIG share (two map folds, MIG name parsing); value is the ghost attribute sumIdleGPUs/sumIdleGPUMem of the node
+//@   requires ni != nil && ni.Idle != nil
+//@   pure
+//@   ensures result0 == sumIdleGPUs(ni) && result1 == sumIdleGPUMem(ni)
+//@ end
+
+//@ func (*NodeInfo).GetSumOfReleasingGPUs
+//@   props C05 C02
+//@   trusted
+//@   note assumed: releasing GPUs = releasing part of shared groups + whole releasing GPUs + MIG share (two map folds, MIG name parsing); value is the ghost attribute sumReleasingGPUs/sumReleasingGPUMem of the node
+//@   requires ni != nil && ni.Releasing != nil
+//@   pure
+//@   ensures result0 == sumReleasingGPUs(ni) && result1 == sumReleasingGPUMem(ni)
 //@ end
